@@ -108,6 +108,10 @@ fn check_texts(name: &str, a: &(String, String), b: &(String, String), sa: &BTre
     Ok(())
 }
 
+fn rng_rate(rng: &mut Prng) -> u32 {
+    *rng.pick(&[150u32, 400, 800])
+}
+
 fn trunc(s: &str) -> String {
     if s.len() > 160 {
         format!("{}...", &s[..160])
@@ -150,6 +154,21 @@ impl Scenario for C17 {
             spec.clock2 = Some(gen_plain_clock(rng, 400));
             // the process's logging configuration (Trace enabled) must not open the text either
             spec.logger = rng.chance(1, 4);
+            if rng.chance(1, 4) {
+                // both generators run the timer test first, on scripts that fail it statistically more
+                // often than not (coarse / constant / tiny-variation clocks, no early exit)
+                use crate::clockgen::{gen_clock, ClockCfg, CF};
+                let mk = |rng: &mut Prng| {
+                    let faults = vec![*rng.pick(&[CF::Coarse100, CF::ConstDelta, CF::TinyVar, CF::Backward])];
+                    let rate = rng_rate(rng);
+                    let (c, _) = gen_clock(rng, &ClockCfg { n: 2100, faults, rate_per_1000: rate, max_stretch: 12, long_stuck: false });
+                    c
+                };
+                spec.clock = Some(mk(rng));
+                spec.clock2 = Some(mk(rng));
+                spec.aux = vec![1]; // aux[0] = 1: test_timer first
+                spec.variant = "gen_after_test_timer".into();
+            }
             // one of the twins sometimes collects a crafted value (zero half / zero): "is the pool
             // still empty" style diagnostics collide with such values
             if rng.chance(1, 6) {
@@ -211,6 +230,17 @@ impl C17 {
                 Op::Fill(n) => calls.push(Call::Fill(*n as usize)),
                 _ => {}
             }
+        }
+        if kind == Kind::Jitter && spec.aux.first().copied() == Some(1) {
+            for g in [&mut a, &mut b] {
+                let r = g.jitter_ref().unwrap().reads();
+                g.jitter_ref().unwrap().set_cap(r + 1700);
+                let gm = g.as_mut();
+                sut(guard(|| {
+                    let _ = gm.jitter().unwrap().test_timer();
+                }), "test_timer")?;
+            }
+            st.count("probe:texts_after_test_timer");
         }
         let mut last_a: Vec<u64> = Vec::new();
         let mut last_b: Vec<u64> = Vec::new();
